@@ -833,3 +833,25 @@ func sinkWritten(in ssa.Instruction, c *core.Canon) (string, bool) {
 	}
 	return c.Of(a), true
 }
+
+// walkerBody returns the function that holds the recursion of domutil.WalkNodes, helpers
+// expanded: WalkNodes itself when it calls itself, else the one self-recursive helper (function
+// or method of a helper type) it delegates to.
+func walkerBody(p *core.Program, r *core.Report, rule string) *ssa.Function {
+	wn := mustFunc(p, r, rule, domutilPkg+".WalkNodes")
+	if wn == nil {
+		return nil
+	}
+	inl := p.Inlined(wn)
+	for _, call := range core.Calls(inl, func(ci ssa.CallInstruction) bool { return true }) {
+		if isSelfCall(p, wn, call) {
+			return inl
+		}
+	}
+	ws := recursiveWorkers(p, wn)
+	if len(ws) != 1 {
+		r.Undecided(rule, "WalkNodes: the recursive walk", fmt.Sprintf("WalkNodes neither calls itself nor delegates to exactly one self-recursive helper (%d found)", len(ws)))
+		return nil
+	}
+	return p.Inlined(ws[0])
+}
